@@ -45,6 +45,9 @@ SHAPES = {
     "vec_in_serialized_as": ('#[typeshare]\npub struct A { #[typeshare(serialized_as = "Vec")] pub f: Foo }\n', False),
     "bad_serialized_as": ('#[typeshare]\npub struct A { #[typeshare(serialized_as = "not a type !")] pub f: Foo }\n', False),
     "array_non_literal_len": ("#[typeshare]\npub struct A { pub f: [u8; N] }\n", False),
+    "array_len_0": ("#[typeshare]\npub struct A { pub f: [u8; 0], pub g: [String; 1], pub h: Vec<[u32; 0]> }\n", False),
+    "array_len_0_alias_variant": ('#[typeshare]\npub type Al = [String; 0];\n#[typeshare]\n#[serde(tag = "t", content = "c")]\npub enum A { V([u8; 0]), W { x: [bool; 0] } }\n', False),
+    "array_len_big": ("#[typeshare]\npub struct A { pub f: [u8; 40], pub g: [[u8; 2]; 0] }\n", False),
     "fn_pointer_type": ("#[typeshare]\npub struct A { pub f: fn(u32) -> u32 }\n", False),
     "impl_trait_type": ("#[typeshare]\npub type A = Box<dyn Fn()>;\n", False),
     "const_string": ('#[typeshare]\npub const A: &str = "x";\n', False),
